@@ -35,6 +35,9 @@ static CPLX_IFFT_PRECOMP* pCplxIfft;
 static REIM_FFTVEC_ADDMUL_PRECOMP* pAddmul;
 static REIM_FROM_ZNX64_PRECOMP* pFromZnx;
 static REIM_TO_ZNX64_PRECOMP* pToZnx;
+static REIM_TO_ZNX64_PRECOMP *pToZnxA, *pToZnxB;
+static CPLX_TO_TNX32_PRECOMP *pTnxA, *pTnxB;
+static REIM_TO_TNX_PRECOMP *pToTnxA, *pToTnxB;
 static q120_ntt_precomp *pNtt, *pIntt;
 static uint64_t gseed;
 
@@ -63,9 +66,10 @@ static void* al(size_t n) {
   return p;
 }
 
-#define NOPS 29
+#define NOPS 33
 static const int op_class[NOPS] = {0, 0, 0, 0, 0, 0, 0, 0, 0, 0, 0, 0, 0, 0, 1, 1, 1, 1, 1, 1, 1, 1,   // 0: module/table, 1: simple
-                                   0, 0, 0, 0, 0, 0, 0};  // 22..27: a thread builds its OWN object, uses it and deletes it
+                                   0, 0, 0, 0, 0, 0, 0, 0, 0, 0, 0};
+#define OP_FRESH 29   // every thread runs it first, released together by a barrier: first use of a dimension, side by side  // 22..27: a thread builds its OWN object, uses it and deletes it
 
 // runs operation `op` on private data derived from (gseed, op) only; returns the hash of everything it produced
 static uint64_t run_op(int op) {
@@ -348,6 +352,54 @@ static uint64_t run_op(int op) {
       }
       break;
     }
+    case 30:
+    case 31: {  // table-based conversion kernels on two shared tables that differ only in the divisor (reference kernel: overhead 30)
+      const uint64_t m = 16;
+      int32_t* y = al(8 * m);
+      double* v = al(16 * m);
+      fill_dbl(v, 2 * m, &s);
+      cplx_to_tnx32(op == 30 ? pTnxA : pTnxB, y, v); h = fnv(h, y, 8 * m);
+      int64_t* z = al(16 * m);
+      reim_to_znx64(op == 30 ? pToZnxA : pToZnxB, z, v); h = fnv(h, z, 16 * m);
+      double* w = al(16 * m);
+      reim_to_tnx(op == 30 ? pToTnxA : pToTnxB, w, v); h = fnv(h, w, 16 * m);
+      free(y); free(v); free(z); free(w);
+      break;
+    }
+    case 32: {  // scratch at an odd address (a uint8_t* argument): the result may not depend on it, nor may shared state be used instead
+      const uint64_t n = NBIG;
+      int64_t *a = al(8 * n), *b = al(8 * n), *r = al(8 * n);
+      uint8_t* tmp = al(znx_small_single_product_tmp_bytes(modBig) + 64);
+      fill_small(a, n, &s, 14); fill_small(b, n, &s, 14);
+      znx_small_single_product(modBig, r, a, b, tmp + 1); h = fnv(h, r, 8 * n);
+      int64_t* x = al(8 * 3 * n);
+      uint8_t* t2 = al(vec_znx_normalize_base2k_tmp_bytes(modBig) + 64);
+      fill_small(x, 3 * n, &s, 60);
+      vec_znx_normalize_base2k(modBig, 17, r, 1, n, x, 3, n, t2 + 3); h = fnv(h, r, 8 * n);
+      free(a); free(b); free(r); free(tmp); free(x); free(t2);
+      break;
+    }
+    case 29: {  // own tables and module of dimensions nobody has used before in this process (large: the constructors take long)
+      const uint32_t m = 8192;
+      double* v = al(16 * m);
+      fill_dbl(v, 2 * m, &s);
+      REIM_FFT_PRECOMP* f = new_reim_fft_precomp(m, 0);
+      REIM_IFFT_PRECOMP* fi = new_reim_ifft_precomp(m, 0);
+      reim_fft(f, v); h = fnv(h, v, 16 * m);
+      reim_ifft(fi, v); h = fnv(h, v, 16 * m);
+      CPLX_FFT_PRECOMP* c = new_cplx_fft_precomp(m, 0);
+      cplx_fft(c, v); h = fnv(h, v, 16 * m);
+      free(f); free(fi); free(c); free(v);
+      const uint64_t n = 2048;
+      MODULE* mo = new_module_info(n, FFT64);
+      int64_t *a = al(8 * n), *b = al(8 * n), *r = al(8 * n);
+      uint8_t* tmp = al(znx_small_single_product_tmp_bytes(mo));
+      fill_small(a, n, &s, 14); fill_small(b, n, &s, 14);
+      znx_small_single_product(mo, r, a, b, tmp); h = fnv(h, r, 8 * n);
+      free(a); free(b); free(r); free(tmp);
+      delete_module_info(mo);
+      break;
+    }
     case 27: {  // own q120 NTT tables
       const uint64_t n = 256;
       q120_ntt_precomp* pn = q120_new_ntt_bb_precomp(n);
@@ -387,10 +439,13 @@ static void traced_op(int op) {
 }
 
 static int g_iters;
+static pthread_barrier_t g_start;
 static void* worker(void* arg) {
   int64_t tid = (int64_t)(intptr_t)arg;
   spqlios_verif_set_tid(tid);
   uint64_t s = gseed * 7919ull + (uint64_t)tid;
+  pthread_barrier_wait(&g_start);
+  traced_op(OP_FRESH);
   for (int it = 0; it < g_iters; ++it) traced_op((int)(splitmix(&s) % NOPS));
   return 0;
 }
@@ -417,12 +472,19 @@ int main(int argc, char** argv) {
   pAddmul = new_reim_fftvec_addmul_precomp(32);
   pFromZnx = new_reim_from_znx64_precomp(32, 50);
   pToZnx = new_reim_to_znx64_precomp(32, 1., 60);
+  pTnxA = new_cplx_to_tnx32_precomp(16, 16. * 1048576., 30);
+  pTnxB = new_cplx_to_tnx32_precomp(16, 512. * 1048576., 30);
+  pToZnxA = new_reim_to_znx64_precomp(16, 4., 60);
+  pToZnxB = new_reim_to_znx64_precomp(16, 32., 60);
+  pToTnxA = new_reim_to_tnx_precomp(16, 8., 20);
+  pToTnxB = new_reim_to_tnx_precomp(16, 64., 20);
   pNtt = q120_new_ntt_bb_precomp(NNTT);
   pIntt = q120_new_intt_bb_precomp(NNTT);
   if (warm) {  // the documented protocol: one call per dimension has completed before the threads start
     for (int op = 0; op < NOPS; ++op) traced_op(op);
     spqlios_verif_event(EV_WARMUP_DONE, 0, 0, 0, 0, 0);
   }
+  pthread_barrier_init(&g_start, 0, (unsigned)nthreads);
   pthread_t* th = malloc(sizeof(pthread_t) * (size_t)nthreads);
   for (int i = 0; i < nthreads; ++i) pthread_create(&th[i], 0, worker, (void*)(intptr_t)(i + 1));
   for (int i = 0; i < nthreads; ++i) pthread_join(th[i], 0);
